@@ -31,7 +31,7 @@ ASSUMPTIONS = ['tokens are compared after white-space collapsing; text the conve
 TXT = P.NS['text']; OFF = P.NS['office']
 ALPHA = ['a', 'b', 'é', '中', '&', '<', '>', '"', "'", ']', ' ', 'x&y', '<b>', 'a"b', "it's", ']]>', 'a[b[0]]>1', '-->', '&amp;', '&#60;']
 class G:
-    def __init__(self, rng): self.rng = rng; self.k = 0; self.tokens = []; self.notes = []; self.hot = False; self.sink = None
+    def __init__(self, rng): self.rng = rng; self.k = 0; self.tokens = []; self.notes = []; self.hot = False; self.sink = None; self.prev_word = None; self.gaps = []
     def word(self):
         self.k += 1
         w = 'w%dq' % self.k              # a number of its own between two letters: found again whatever stands next to it
@@ -41,6 +41,7 @@ class G:
         return w
     def text(self, n=None):
         ws = [self.word() for _ in range(n or self.rng.randint(1, 3))]
+        self.first_word = ws[0]; self.prev_word = ws[-1] if self.sink is None else None
         if self.sink is None: self.tokens += ws
         elif self.sink != 'ignore': self.sink += ws
         return P.xml_text(' '.join(ws))
@@ -51,13 +52,19 @@ class G:
     def inline(self, depth=0):
         r = self.rng.random()
         if r < 0.45 or depth > 2: return self.text()
+        if 0.45 <= r < 0.72 or r >= 0.88: self.prev_word = None          # (a gap is judged only between two pieces of plain text)
         if r < 0.6: return '<text:span text:style-name="%s">%s</text:span>' % (self.rng.choice(['T1', 'T2', 'T&lt;3']), self.inline(depth + 1))
         if r < 0.72:
             href = self.rng.choice(['http://example.org/?a=1&amp;b=2', '', '#anchor', 'x&quot;y', '../a b.odt'])
             return '<text:a xlink:type="simple" xlink:href="%s">%s</text:a>' % (href, self.inline(depth + 1))
-        if r < 0.78: return '<text:s text:c="%d"/>' % self.rng.randint(1, 3) + self.text(1)
-        if r < 0.84: return '<text:tab/>' + self.text(1)
-        if r < 0.88: return '<text:line-break/>' + self.text(1)
+        if r < 0.88:
+            # white space elements stand where they stand: between the word before and the word after
+            before = self.prev_word if self.sink is None else None
+            el = '<text:s text:c="%d"/>' % self.rng.randint(1, 3) if r < 0.78 else '<text:tab/>' if r < 0.84 else '<text:line-break/>'
+            if r < 0.78 and self.rng.random() < 0.3: el = '<text:s/>'
+            t = self.text(1)
+            if before is not None and self.sink is None: self.gaps.append((before, self.first_word, el[6:el.find(' ') if ' ' in el else -2]))
+            return el + t
         if r < 0.97: return self.inline_note()
         return self.text() + self.inline(depth + 1)
     def inline_note(self):
@@ -74,6 +81,7 @@ class G:
         return ('<text:note text:id="ftn%d" text:note-class="%s"><text:note-citation%s>%s</text:note-citation><text:note-body>%s</text:note-body></text:note>'
                 % (self.k, cls, ' text:label="*"' if cit == '' else '', cit, body))
     def para(self):
+        self.prev_word = None
         return '<text:p text:style-name="%s">%s</text:p>' % (self.rng.choice(['P1', 'Standard', 'P&amp;2'] + HEADING_STYLES[self.k % len(HEADING_STYLES):][:1]), ''.join(self.inline() for _ in range(self.rng.randint(1, 3))))
     def sublist(self, depth):
         # the schema allows paragraphs, headings and lists inside a list item - nothing else
@@ -83,6 +91,9 @@ class G:
     def block(self, depth=0, r=None, level=None):
         r = self.rng.random() if r is None else r
         if r < 0.4 or depth > 2: return self.para()
+        if r < 0.55 and level is None and self.rng.random() < 0.25:       # the level is optional: it is 1 then
+            self.prev_word = None
+            return '<text:h>%s</text:h>' % self.inline()
         if r < 0.55: return '<text:h text:outline-level="%d"%s>%s</text:h>' % (level or self.rng.randint(1, 10), self.rng.choice(['', ' text:style-name="%s"' % HEADING_STYLES[self.k % len(HEADING_STYLES)]]), self.inline())
         if r < 0.7:
             items = ''.join('<text:list-item>%s</text:list-item>' % (self.para() + (self.sublist(depth + 1) if self.rng.random() < 0.3 else '')) for _ in range(self.rng.randint(1, 3)))
@@ -110,7 +121,8 @@ class G:
         if r < 0.96:                                            # text, a frame anchored as a character, text
             before = self.text(1); name = self.attr(); box = self.para(); after = self.text(1)
             return '<text:p>%s<draw:frame draw:name="%s" text:anchor-type="as-char" svg:width="5cm" svg:height="2cm"><draw:text-box>%s</draw:text-box></draw:frame>%s</text:p>' % (before, name, box, after)
-        return '<text:p><draw:frame draw:name="%s" svg:width="1cm" svg:height="1cm"><draw:image xlink:href="Pictures/p1.png" xlink:type="simple"/><svg:title>%s</svg:title></draw:frame></text:p>' % (self.attr(), self.title())
+        img = '<draw:image xlink:href="Pictures/p1.png" xlink:type="simple"/>' if self.rng.random() < 0.6 else '<draw:image><office:binary-data>iVBORw0KGgo=</office:binary-data></draw:image>'      # (the picture inside the content)
+        return '<text:p><draw:frame draw:name="%s" svg:width="1cm" svg:height="1cm">%s<svg:title>%s</svg:title></draw:frame></text:p>' % (self.attr(), img, self.title())
 
 # style names the converters look at: 'Heading N' is a heading of level N - and 'Heading' plus anything else is a paragraph style like any other
 HEADING_STYLES = ['Heading_20_1', 'Heading_20_2', 'Heading_20_1_20_Appendix', 'Heading_20_TOC', 'Heading_20_1.1', 'Heading_20_', 'Heading']
@@ -132,9 +144,9 @@ def make_doc(rng, kind='text', i=0):
     if any(c in f for f in fam for c in '<>&"]'): g.hot = True
     autos = ('<style:style style:name="P1" style:family="paragraph"><style:paragraph-properties fo:text-align="center"/><style:text-properties fo:font-family="%s"/></style:style>'
              '<style:style style:name="P&amp;2" style:family="paragraph"/><style:style style:name="T1" style:family="text"><style:text-properties fo:font-weight="bold" fo:font-family="%s"/></style:style>'
-             '<style:style style:name="T2" style:family="text"/><style:style style:name="T&lt;3" style:family="text"/>'
+             '<style:style style:name="T2" style:family="text"><style:text-properties style:text-position="%s"/></style:style><style:style style:name="T&lt;3" style:family="text"/>'
              '<text:list-style style:name="L1"><text:list-level-style-bullet text:level="1" text:bullet-char="•"/></text:list-style>'
-             '<text:list-style style:name="WW8Num1.1"><text:list-level-style-number text:level="1" style:num-format="1"/><text:list-level-style-number text:level="2" style:num-format="a"/></text:list-style>') % (P.xml_attr(fam[0]), P.xml_attr(fam[1]))
+             '<text:list-style style:name="WW8Num1.1"><text:list-level-style-number text:level="1" style:num-format="1"/><text:list-level-style-number text:level="2" style:num-format="a"/></text:list-style>') % (P.xml_attr(fam[0]), P.xml_attr(fam[1]), rng.choice(['super', 'sub', '33% 58%', '33.3% 58%', '-33%', 'super 58%', '0% 100%']))
     if kind == 'text':
         data = P.simple_package(body, autostyles=autos, meta=meta, extra_members=[('Pictures/p1.png', b'\x89PNG', 'image/png')],
                                 styles='<style:default-style style:family="paragraph"/><style:style style:name="Standard" style:family="paragraph"/>'
@@ -263,6 +275,10 @@ def run(ctx):
                 seen_n = re.findall(r'w(\d+)q', have)
                 twice = sorted(set(t for t in need + g.notes if seen_n.count(re.match(r'w(\d+)q', t).group(1)) > 1))
                 if twice: ctx.violation('xhtml-text-duplicated', dict(case, css=css), twice[:5], 'every word of the document once', {'aspect': 'complete'})
+                for a_, b_, el_ in g.gaps:
+                    i_ = have.find(a_); j_ = have.find(b_, i_ + len(a_)) if i_ >= 0 else -1
+                    if i_ >= 0 and j_ >= 0 and not re.fullmatch(r'[\s\u00a0]+', have[i_ + len(a_):j_]):
+                        ctx.violation('xhtml-white-space-misplaced', dict(case, css=css), {'between': [a_, b_], 'found': have[i_ + len(a_):j_][:40], 'element': 'text:' + el_}, 'white space between the two words', {'aspect': 'complete'}); break
                 gotn = subsequence(g.notes, have)
                 if gotn < len(g.notes):
                     ctx.violation('xhtml-note-text-lost', dict(case, css=css), {'missing_from': g.notes[gotn]}, 'every footnote token, in order', {'aspect': 'complete'})
